@@ -36,7 +36,10 @@ HOSTS: list[tuple[str | None, bool | None]] = [
     ("127.0.0.2", False), ("127.0.0.10", False), ("1127.0.0.1", False), ("[::1]", False), ("[::1]:5000", False), ("xn--lcalhost-54a", False),
     ("l\xf6calhost", False), ("sub.l\xf6calhost", False), ("LOCALHOST", None), ("Sub.Localhost:80", None), ("a..localhost", False), ("a" * 70 + ".localhost", False),
     ("evil.127.0.0.1", False), ("sub.127.0.0.1:5000", False), ("localhost.127.0.0.1", False),
-    (".localhost", None), ("localhost.", None), ("xn--a.localhost", None), ("evil.com:localhost", False), ("localhost@evil.com", False), ("evil.com#.localhost", None),
+    (".localhost", None), ("localhost.", None), ("xn--a.localhost", None), ("evil.com:localhost", False), ("localhost@evil.com", False), ("evil.com#.localhost", False),
+    # a trusted name followed by something that is not a port, or wrapped in characters no host name can contain
+    ("localhost:80@evil.com", False), ("127.0.0.1:@evil.com", False), ("localhost:abc", False), ("localhost:80 evil.com", False),
+    ("evil.com x.localhost", False), ("evil.com/.localhost", False), ("evil.com, x.localhost", False), ("evil.com?.localhost", False), ("evil.com\t.localhost", False),
 ]
 TRUSTED_IDX = [i for i, (_, v) in enumerate(HOSTS) if v is True]
 
@@ -482,7 +485,10 @@ class HostValidation(Scenario):
             # derived from the list itself: a subdomain, a look-alike or the exact name of one of its entries
             ref = rng.choice(trusted)
             bare = ref[1:] if ref.startswith(".") else ref
-            host = rng.choice(["evil." + bare, "a.b." + bare, "evil" + bare, bare + ".evil.com", bare, bare.upper(), bare + ":8080", "x-" + bare])
+            host = rng.choice(["evil." + bare, "a.b." + bare, "evil" + bare, bare + ".evil.com", bare, bare.upper(), bare + ":8080", "x-" + bare,
+                               # a listed name with something other than a port behind it, or inside text that is no host name
+                               bare + ":80@evil.com", bare + ":@evil.com", bare + "@evil.com", bare + ":x", bare + "evil.com", bare + ".evil.com:80", bare + " evil.com",
+                               "evil.com x." + bare, "evil.com/." + bare, "evil.com, x." + bare, "evil.com#." + bare, "evil.com?." + bare, "evil.com\t." + bare, "evil.com@" + bare])
             return self.with_server(rng, {"host": host, "trusted": trusted, "scheme": rng.choice(["http", "https"])})
         if k == 0:
             host = rng.choice([h for h, _ in HOSTS if h is not None])
@@ -558,15 +564,27 @@ class HostValidation(Scenario):
 
     @staticmethod
     def norm(name: str) -> str | None:
+        """The host without its port, in ASCII lower case - or None when the text is not host[:port] at all: whatever
+        follows the name must be a colon and digits, and the name consists of letters, digits, hyphens, underscores and
+        dots (after IDNA) or is a bracketed address literal."""
+        import re
+
         if name.startswith("["):
             end = name.find("]")
             if end > 0:
+                if not re.fullmatch(r"(:[0-9]*)?", name[end + 1 :]):
+                    return None
                 return name[: end + 1].lower()
-        name = name.partition(":")[0]
+        name, colon, port = name.partition(":")
+        if colon and not re.fullmatch(r"[0-9]*", port):
+            return None
         try:
-            return name.encode("idna").decode("ascii").lower()
+            name = name.encode("idna").decode("ascii").lower()
         except UnicodeError:
             return None
+        if not re.fullmatch(r"[a-z0-9._-]+", name):
+            return None
+        return name
 
     def admits(self, host: str, trusted: list[str]) -> bool:
         """Reference: port aside, equal to a listed name or a true subdomain of a dot-prefixed entry (IDNA, case-insensitive)."""
